@@ -46,6 +46,10 @@ class Tbl(Stub):
     def write(self, path, **kw):
         self.ops.append(("write", path, dict(kw), sorted(self.columns), sorted(self.meta)))
 
+    def __nss_len__(self):
+        """number of rows: the number of events that survived the geometry stage (0 is a possible value: an empty table is a table)"""
+        return S(sp.Symbol("n_rows", integer=True, nonnegative=True), "py")
+
 
 class ConsoleStub(Stub):
     def __init__(self, *a, **k):
@@ -69,10 +73,11 @@ def fresh(axis, name, log, stage):
 class Model:
     """one symbolic run of compute() for a concrete choice of (mode, optical, radio, write_stages)"""
 
-    def __init__(self, mode="Diffuse", optical=True, radio=True, write_stages=False, spectrum="mono", cloud="none"):
+    def __init__(self, mode="Diffuse", optical=True, radio=True, write_stages=False, spectrum="mono", cloud="none", fail_stage=None):
         from nuspacesim.config import NssConfig, Simulation, Detector
 
         self.mode, self.optical, self.radio, self.write_stages = mode, optical, radio, write_stages
+        self.fail_stage = fail_stage  # name of a stage whose body raises (fault inside a stage)
         sim = Simulation(mode=mode)
         if spectrum == "power":
             sim.spectrum = Simulation.PowerSpectrum()
@@ -116,6 +121,7 @@ class Model:
 
         def find_ll(interp, self_, dist):
             log.append(("call", "geom.find_lat_long_along_traj", (dist,), {}))
+            self._maybe_fail("geom.find_lat_long_along_traj")
             return fresh(kept, "init_lat", log, "geom"), fresh(kept, "init_long", log, "geom")
 
         ov[C.RegionGeom.find_lat_long_along_traj] = find_ll
@@ -123,6 +129,7 @@ class Model:
 
         def e_spec(interp, N, spectra, *a, **k):
             log.append(("call", "energy_spectra", (N, spectra) + a, k))
+            self._maybe_fail("energy_spectra")
             interp.rng_draws.append({"name": "spectrum", "where": "spectrum stage"})
             return fresh(kept, "log_e_nu", log, "spec")
 
@@ -132,6 +139,7 @@ class Model:
 
         def tau_call(interp, self_, betas, log_e_nu, *a, **k):
             log.append(("call", "Taus.__call__", (betas, log_e_nu) + a, k))
+            self._maybe_fail("Taus.__call__")
             interp.rng_draws.append({"name": "tau", "where": "tau stage"})
             return tuple(fresh(kept, n, log, "tau") for n in ("tauBeta", "tauLorentz", "tauEnergy", "showerEnergy", "tauExitProb"))
 
@@ -139,6 +147,7 @@ class Model:
 
         def altdec(interp, self_, beta, tauBeta, tauLorentz, u=None, *a, **k):
             log.append(("call", "EAS.altDec", (beta, tauBeta, tauLorentz, u) + a, k))
+            self._maybe_fail("EAS.altDec")
             interp.rng_draws.append({"name": "decay", "where": "decay stage"})
             return fresh(kept, "altDec", log, "decay"), fresh(kept, "lenDec", log, "decay")
 
@@ -146,12 +155,14 @@ class Model:
 
         def eas_call(interp, self_, beta, altDec, showerEnergy, init_lat, init_long, *a, cloudf=None, **k):
             log.append(("call", "EAS.__call__", (beta, altDec, showerEnergy, init_lat, init_long) + a, dict(k, cloudf=cloudf)))
+            self._maybe_fail("EAS.__call__")
             return fresh(kept, "numPEs", log, "optical"), fresh(kept, "costhetaChEff", log, "optical")
 
         ov[inspect.unwrap(C.EAS.__call__)] = eas_call
 
         def radio_call(interp, self_, beta, altDec, lenDec, theta, pathLen, showerEnergy, *a, **k):
             log.append(("call", "EASRadio.__call__", (beta, altDec, lenDec, theta, pathLen, showerEnergy) + a, k))
+            self._maybe_fail("EASRadio.__call__")
             interp.rng_draws.append({"name": "radio", "where": "radio stage"})
             return fresh(kept, "EFields", log, "radio")
 
@@ -159,6 +170,7 @@ class Model:
 
         def snr(interp, Efield, freqRange, h_obs=525.0, Nants=1, gain=10.0):
             log.append(("call", "calculate_snr", (Efield, freqRange, h_obs, Nants, gain), {}))
+            self._maybe_fail("calculate_snr")
             return fresh(kept, "snrs", log, "radio")
 
         ov[C.calculate_snr] = snr
@@ -166,6 +178,7 @@ class Model:
         def mcint(interp, self_, triggers, costheta, tauexitprob, threshold, spec_norm, spec_weights_sum, **k):
             method = k.get("method")
             log.append(("call", "geom.mcintegral", (triggers, costheta, tauexitprob, threshold, spec_norm, spec_weights_sum), k))
+            self._maybe_fail("geom.mcintegral")
             store = k.get("store")
             if self.mode == "Target" and store is not None:
                 col = "tmcintopt" if method == "Optical" else "tmcintrad"
@@ -177,6 +190,12 @@ class Model:
         ov[C.RegionGeom.mcintegral] = mcint
         ov[C.RegionGeomToO.mcintegral] = mcint
         return ov
+
+    def _maybe_fail(self, name):
+        if self.fail_stage == name:
+            from nssvc.interp import UserRaise
+
+            raise UserRaise(RuntimeError("injected failure inside stage %s" % name))
 
     def run(self, max_paths=8):
         import importlib
